@@ -72,7 +72,9 @@ func (d *defineBuiltinMethod) defineBuiltinInstanceMethod(
 	methodT.DefinedClass = d.targetClass
 	methodT.IsStatic = false
 
-	existingT := base.GetMethodT(frame, d.targetClass, method, false)
+	// only the class's own declaration makes this one an overload: a method of
+	// the same name inherited from a parent (known so far) is overridden, not extended
+	existingT := base.GetOwnMethodT(frame, d.targetClass, method, false)
 
 	if existingT != nil {
 		existingT.Overloads = append(existingT.Overloads, *methodT)
@@ -115,7 +117,7 @@ func (d *defineBuiltinMethod) defineBuiltinStaticMethod(
 		base.CalculateFrame(frame, d.targetClass) + "::" + method,
 	)
 
-	existingT := base.GetClassMethodT(frame, d.targetClass, method, false)
+	existingT := base.GetOwnClassMethodT(frame, d.targetClass, method, false)
 
 	if existingT != nil {
 		existingT.Overloads = append(existingT.Overloads, *methodT)
